@@ -237,6 +237,8 @@ class Gen(object):
                 break
             self.stmt(ind, scope, depth, in_loop)
             made += 1
+            if self.lines and self.lines[-1].strip().split(' ')[0] in ('return', 'raise', 'break', 'continue'):
+                return      # nothing is generated after a statement that leaves the block (no dead code)
         if force:
             # every direct block of an 'all paths bind it' statement ends by binding the variable
             self.emit(ind, '%s = %s' % (force[0], self.expr(scope)))
@@ -469,6 +471,10 @@ class Gen(object):
             if where in ('first', 'both'):
                 self.emit(ind + 1, raising)
             self.block(ind + 1, scope, depth + 1, in_loop)
+            if self.lines[-1].strip().split(' ')[0] in ('return', 'raise', 'break', 'continue'):
+                where = 'first' if where == 'both' else where
+                if where == 'last':
+                    return
             if where in ('last', 'both'):
                 if where == 'both':
                     if not self.dec_ok():
@@ -501,7 +507,9 @@ class Gen(object):
                     self.emit(ind, h + ':')
                 self.block(ind + 1, scope, depth + 1, in_loop)
                 r = rng.random()
-                if scope.kind == 'function' and r < 0.15:
+                if self.lines[-1].strip().split(' ')[0] in ('return', 'raise', 'break', 'continue'):
+                    pass
+                elif scope.kind == 'function' and r < 0.15:
                     self.emit(ind + 1, 'return %s' % self.expr(scope))      # the handler leaves the function
                     self.features.add('handler_returns')
                 elif self.c01 and r < 0.3:
@@ -662,7 +670,7 @@ class Gen(object):
                 fs.declared.add(g)
                 self.features.add('nonlocal')
         self.block(ind + 1, fs, depth + 1, False)
-        if rng.random() < 0.6:
+        if rng.random() < 0.6 and not self.lines[-1].strip().startswith(('return', 'raise')):
             self.emit(ind + 1, 'return %s' % self.expr(fs))
         scope.add(name)
 
